@@ -483,10 +483,13 @@ func runC09(c *Ctx) {
 				cs.Variant = "too-long"
 			}
 			cases = append(cases, cs)
-			// failing variant for the error-text clause
-			cs2 := cs
-			cs2.Variant = "server-fails-round2"
-			cases = append(cases, cs2)
+			// failing variant for the error-text clause (only where the
+			// password fits the key; otherwise the case is "too-long" already)
+			if cs.Variant == "ok" {
+				cs2 := cs
+				cs2.Variant = "server-fails-round2"
+				cases = append(cases, cs2)
+			}
 			// control
 			cs3 := cs
 			cs3.Variant = "control-plain"
